@@ -102,3 +102,8 @@ package m
 //@   ensures outside-internal [C01]: result0 != nil ==> !inPrefix(InternalPrefix, result0.IP)
 //@   ensures in-acceptable [C01]: result0 != nil ==> (exists j int :: 0 <= j && j < len(acceptablePrefixes) && inPrefix(acceptablePrefixes[j], result0.IP))
 //@   ensures identity [C01]: result0 != nil ==> len(result0.PrivateKey) == 64 && len(result0.PublicKey) == 32 && result0.Type == "Ed25519" && result0.Hash == AddressDigestAlg
+
+// ---- routing table lookups (environment of the forwarding path; table properties are C11) ------------
+//@ func RoutingTable.LookupNearestRoute
+//@   option trusted
+//@   modifies nothing
